@@ -345,3 +345,141 @@ def o4_lin(h):
 def o4_neo(h):
     """as O4.output_stress_linear_elastic for the neo-Hookean models (log J and J^(-2/3) uninterpreted)"""
     _o4(h, ('adagio', 'coupled') if h.thorough() else ('adagio',))
+
+
+# ------------------------------------------------------------------------------------------ O5: J2 small-strain consistent tangent
+# (added by the C09 builder; machinery from vf.props.c09: rtsafe_ contract stub, J2Case with eager replay of the unmodified code)
+def _j2_tangent_fn():
+    from . import c09
+
+    def fn(dg, st, V, E, nu, Y0, H, dt):
+        J2, Hd, SRF, TM = c09._mods()
+        m = c09.make_model(E, nu, Y0, (H,))
+        props = J2.make_properties(E, nu, Y0)
+        hm = Hd.create_hardening_model({'hardening model': 'linear', 'yield strength': Y0, 'hardening modulus': H})
+        c09.site('a')
+        W = lambda d: m.compute_energy_density(d, st, dt)
+        W0 = W(dg)
+        # (a) the library: stress and tangent action through the real pipeline (update inside the energy, find_root's custom_root rule)
+        S, TV = jax.jvp(jax.grad(W), (dg,), (V,))
+        # (b) the oracle: chain rule over the real PRE-ROOT functions with eqps as an explicit argument
+        x = jax.lax.stop_gradient(m.compute_state_new(dg, st, dt)[0])
+        e0 = st[0]
+        el = lambda d: J2.compute_elastic_linear_strain(d, st)
+
+        def Wexp(d, xx):
+            Ee = el(d)
+            return J2.elastic_free_energy(Ee - (xx - e0) * J2.compute_flow_direction(Ee), props) + hm.compute_hardening_energy_density(xx, e0, dt)
+        res = lambda d, xx: J2.r(el(d), xx, e0, dt, props, hm)
+        Pexp = jax.grad(Wexp, 0)
+        P0, PV = jax.jvp(lambda d: Pexp(d, x), (dg,), (V,))
+        Px = jax.jacfwd(Pexp, 1)(dg, x)
+        r0, rV = jax.jvp(lambda d: res(d, x), (dg,), (V,))
+        dxV = -rV / jax.grad(res, 1)(dg, x)
+        D0 = TM.dev(el(dg))
+        return dict(W0=W0, S=S, TV=TV, P0=P0, orT=PV + Px * dxV, Wx=jax.grad(Wexp, 1)(dg, x), r0=r0, DD0=jnp.tensordot(D0, D0), mu=props[J2.PROPS_MU])
+    return fn
+
+
+def _j2_fd_reference(args, out):
+    """replay side only: 4th-order central differences of the REAL energy density (unmodified code, real root finder) at the model point"""
+    from . import c09
+    dg, st, V, E, nu, Y0, H, dt = args
+    m = c09.make_model(float(E), float(nu), float(Y0), (float(H),))
+    Wj = jax.jit(lambda d: m.compute_energy_density(d, jnp.asarray(st), float(dt)))
+    Wr = lambda d: float(Wj(jnp.asarray(d)))
+    d0, Vn = onp.asarray(dg, dtype=float), onp.asarray(V, dtype=float)
+    hh = 1e-3 * max(float(onp.sqrt(onp.asarray(out['DD0']))), 1e-6)
+    vs = max(float(onp.abs(Vn).max()), 1e-300)
+    co = {-2: 1.0 / 12, -1: -2.0 / 3, 1: 2.0 / 3, 2: -1.0 / 12}
+    fdS, fdT = onp.zeros((3, 3)), onp.zeros((3, 3))
+    for a in range(3):
+        for b in range(3):
+            e = onp.zeros((3, 3))
+            e[a, b] = 1.0
+            fdS[a, b] = sum(cp * Wr(d0 + p * hh * e) for p, cp in co.items()) / hh
+            fdT[a, b] = sum(cp * cq * Wr(d0 + p * hh * e + q * (hh / vs) * Vn) for p, cp in co.items() for q, cq in co.items()) / (hh * hh / vs)
+    return dict(fdS=fdS, fdT=fdT)
+
+
+def _j2_direction_build(c09, frame, direction):
+    def build(free):
+        d = {'principal': c09.build_principal, 'plane': c09.build_plane, 'full': c09.build_full}[frame](free)
+        V = free['V'].copy()
+        if direction == 'shear':
+            for k in range(3):
+                V[k, k] = 0.0
+        elif direction in ('volumetric', 'radial', 'transverse'):
+            t = free['V'][0, 0]
+            e = [sym.toz(d['dg'][k, k]) - sym.toz(d['st'][1 + 4 * k]) for k in range(3)]
+            tr3 = (e[0] + e[1] + e[2]) / 3
+            dd = [x - tr3 for x in e]
+            vec = {'volumetric': [1, 1, 1], 'radial': dd, 'transverse': [dd[1] - dd[2], dd[2] - dd[0], dd[0] - dd[1]]}[direction]
+            V = onp.zeros((3, 3), dtype=object)
+            for a in range(3):
+                for b in range(3):
+                    V[a, b] = (t * vec[a]) if a == b else 0.0
+        d['V'] = V
+        return d
+    return build
+
+
+@obligation(P, 'O5.j2_small_strain_consistent_tangent', cap=900)
+def o5_j2(h):
+    """J2 plasticity, small strain, linear hardening, yielding branch: stress jax.grad(W) and tangent action jax.jvp(jax.grad(W))[V] of the
+    real energy density (state update inside, root by find_root's custom_root rule) equal the chain-rule derivatives assembled from the
+    real pre-root functions with eqps explicit: stress = dWexp/dE (implicit term vanishes at r = 0), tangent[V] = d2Wexp/dE2[V] +
+    d2Wexp/dE deqps * (-r_E[V]/r_eqps)"""
+    from . import c09
+    from .c09 import J2Case, box_moduli, box_state, state_invariant, flat, tob, toz
+    J2, Hd, SRF, TM = c09._mods()
+    h.encoded(J2.create_material_model_functions, J2._energy_density, J2.compute_state_increment, J2.update_state, J2.compute_flow_direction, J2.incremental_potential,
+              'optimism.material.J2Plastic:r = jax.jacfwd(incremental_potential, 1)', J2.elastic_free_energy, J2.compute_elastic_linear_strain, Hd.create_hardening_model, Hd.linear,
+              SRF.find_root, 'jax.lax.custom_root JVP rule with find_root\'s tangent_solve (y/g(1.0)), differentiated twice (jvp of grad)')
+    h.bounds('moduli (traced): Y0 > 0, %g <= E/Y0 <= %g, 0 <= nu <= %g, 0 <= H <= E; 0 <= eqps <= %g, strains in [-%g, %g]; yielding branch with |dev strain|^2 > 1e-16'
+             % (c09.EY_MIN, c09.EY_MAX, c09.NU_MAX, c09.EQPS_MAX, c09.STRAIN_MAX, c09.STRAIN_MAX),
+             'stress: principal frame and plane-strain block (thorough: full 3x3), all 9 components',
+             'tangent: principal frame (diagonal dispGrad and plastic strain); directions V: every off-diagonal V (6 symbolic components) in both tiers; '
+             't*I (volumetric) quick; t*dev(strain) (radial) and t*(d2-d3, d3-d1, d1-d2) (deviatoric, orthogonal to the flow direction) thorough; t symbolic')
+    h.assume_note('ScalarRootFind.rtsafe_ replaced by its contract with an EXACT root for this obligation: fresh x with lb <= x <= ub and r(x) == 0 (r the real residual closure); '
+                  'find_root / custom_root and the tangent rule are the real code',
+                  'oracle (b) of the design: chain rule over jax derivatives of the real pre-root functions elastic_free_energy, compute_flow_direction, the hardening energy and r with '
+                  'eqps as an explicit argument (independent of update_state, _energy_density and the custom_root rule)',
+                  'the tangent action is linear in V by construction of jax.jvp: off-diagonal V, I, dev(strain) and the orthogonal deviatoric diagonal direction span all V in the principal frame',
+                  'symbolic denominators (1+nu, 1-2nu, |dev strain|, d r/d eqps = 2 mu N:N + H) are assumed non-zero',
+                  'replay: real jax.jvp(jax.grad(W)) / jax.grad(W) of the unmodified code against 4th-order central finite differences of the real energy density at the model point (tolerance 1e-4*mu)')
+    h.outside('strain frames other than the principal one for the tangent (the monolithic plane-strain query is unknown at 60 s)', 'Voce hardening', 'the elastic branch (plain quadratic energy)',
+              'finite-deformation / Seth-Hill kinematics')
+    fn = _j2_tangent_fn()
+    ex = dict(dg=c09.EX['dg'], st=c09.EX['st'], V=onp.array([[.3, -.2, .1], [.5, .1, -.4], [.2, .3, -.1]]), E=200.0, nu=0.3, Y0=1.0, H=2.0, dt=1.0)
+
+    def run(frame, direction, what, first, cap, order):
+        c = J2Case(h, fn, ex, build=_j2_direction_build(c09, frame, direction), sampler=None, label='j2_tangent[%s,%s]' % (frame, direction), assume_post=False,
+                   validate=1 if first else 0, rtol=1e-6)
+        c.replay_extra = _j2_fd_reference
+        A = c.calls('a')
+        exact = [z3.Implies(A['guard'], z3.And(toz(A['rx']) == 0, toz(A['lb']) <= toz(A['x']), toz(A['x']) <= toz(A['ub'])))] if sym.isz(A['guard']) else []
+
+        def spec(i, o, calls):
+            g = calls('a')['guard']
+            symbolic = sym.isz(g)
+            mu = s0(o['mu'])
+            nz0 = v_lt(1e-16, s0(o['DD0']))
+            scale = mu if symbolic else 1e5 * float(mu)
+            ats = []
+            if 'stress' in what:
+                ats.append(Eq(flat(o['S']), flat(o['P0'] if symbolic else o['fdS']), when=v_and(g, nz0), name='stress_is_partial_derivative_at_fixed_eqps', scale=scale))
+                ats.append(Eq(s0(o['Wx']), 0.0, when=v_and(g, nz0), name='implicit_term_vanishes__dW_deqps_is_the_residual', scale=scale))
+            if 'tangent' in what:
+                ref = flat(o['orT'] if symbolic else o['fdT'])
+                for k in range(9):
+                    ats.append(Eq(flat(o['TV'])[k], ref[k], when=v_and(g, nz0), name='tangent_action_%d%d' % (k // 3, k % 3), scale=scale))
+            return box_moduli(i, hmin_rel=0.0) + box_state(i) + state_invariant(i['st']), ats
+        c.prove('%s.%s' % (frame, direction), spec, cap=cap, order=order, extra_assumes=exact)
+    run('principal', 'shear', ('stress', 'tangent'), True, 60, ('core', 'nlsat'))
+    run('principal', 'volumetric', ('tangent',), False, 60, ('core', 'nlsat'))
+    run('plane', 'shear', ('stress',), False, 60, ('core', 'nlsat'))
+    if h.thorough():
+        run('principal', 'radial', ('tangent',), False, 300, ('nlsat', 'core'))
+        run('principal', 'transverse', ('tangent',), False, 300, ('core', 'nlsat'))
+        run('full', 'shear', ('stress',), False, 120, ('core', 'nlsat'))
